@@ -141,6 +141,8 @@ func hC04on(inner fs.FileSystem, n, prefix, L2, vlen int) {
 		}
 		refApply(cur, op, k, v)
 		dbApply(&db2, dir, nil, cur, op, k, v, "C04.e3")
+		// also inside the recovered session: appends go to the newest segment only
+		vCheckLogInvariant(db2, "C04.e3.in-session")
 	}
 	drop()
 	db3, err := Open(dir, smallOpts(inner, 2, rec))
@@ -163,13 +165,13 @@ func hC04on(inner fs.FileSystem, n, prefix, L2, vlen int) {
 	vCover("C04.done")
 }
 
-func H_C04_q()    { hC04(2, 2, 1, 2) }
-func H_C04_tear() { hC04(2, 1, 1, 300) }
+func H_C04_q()       { hC04(2, 2, 1, 2) }
+func H_C04_tear()    { hC04(2, 1, 1, 300) }
 func H_C04_tear_os() { hC04on(fs.OS, 2, 1, 1, 300) }
 
 // the second record starts 4 bytes before the 1024 boundary: a tear leaves a partial size header
 func H_C04_tearhdr() { hC04(2, 1, 1, 490) }
-func H_C04_t()    { hC04(2, 2, 2, 2) }
+func H_C04_t()       { hC04(2, 2, 2, 2) }
 
 // vCheckLogInvariant: appends must go to the newest segment (recovery replays
 // segments in sequence order, so a record appended to an older segment would be
